@@ -130,6 +130,9 @@ Section WithDigest.
   Definition fstep (fw : fworld) (p : op) : fworld * out :=
     match p with
     | OAdd v items => let r := fadd fw v items in settle (snd r, OAdded (fst (fst r)) (snd (fst r)))
+    | OAddRO v items =>
+        settle (if (match v with Some b => b | None => w_verify (f_w fw) end)
+                then fold_left fpre_step items fw else fw, ORes 1)
     | OCheck o => let r := fcheck fw o in settle (snd r, ORes (fst r))
     | OExist os => let r := foids_exist fw os in settle (snd r, OExists (fst r))
     | OCheckout o => let r := fcheckout fw o in settle (snd r, OCheckedOut (fst (fst r)) (snd (fst r)))
